@@ -217,5 +217,68 @@ class RawSystem(Stream):
         return f"get_relative {Z(case['val'])} {Z(case['oct'])} {B(case['down'])} {Z(case['last'])} {Zl(case['system'])}"
 
 
+class ReferenceSurvives(Stream):
+    """melodies with relative notes, rests and chord changes: the rendered pitches and the pitches written by to_absolute_note
+    both follow the reference pitch the statement describes (python oracle: score_gen.spec_sounding, independent of the code)"""
+    name = "reference_pitch"
+    checker = None
+    pair = "property oracle on get_notes(score) and on Score.to_absolute_note() vs the sounding notes of the statement"
+    quick, thorough = 500, 8000
+
+    def gen(self, rng, n):
+        from harness import score_gen as sg
+        from harness.props.C11 import fix_relative
+        for _ in range(n):
+            sc = sg.rand_score(rng, max_chords=4, rel=0.45, cont=0.1, rest=0.15, accs=False)
+            for c in sc:
+                c["coct"] = rng.choice([0, 0, 0, 1, -1])
+                c["tdeg"] = rng.choice([0, 0, c["tdeg"]])          # pitch 0 (the tonic of C) is a reference like any other
+            yield {"score": fix_relative([dict(c, parts=[p for p in c["parts"] if not p[0].startswith("drums")] or c["parts"][:1]) for c in sc])}
+
+    def impl(self, case):
+        from harness import score_gen as sg
+        def f():
+            sc = sg.mk_rscore(case["score"])
+            names = list(dict.fromkeys(nm for ch in sc.chords for nm in ch.score.keys()))
+            ev = lambda s: {names[i]: [[p, o, d] for p, o, d, v in l] for i, l in sg.merge_rows(sg.impl_rows(s)).items()}
+            ab = sc.to_absolute_note()
+            written = {}
+            for ch in ab.chords:
+                for nm, mel in ch.score.items():
+                    for nt in mel.notes:
+                        if nt.type not in ("r", "l"):
+                            written.setdefault(nm, []).append([nt.type, int(nt.val) + 12 * int(nt.octave)])
+            return {"rendered": ev(sc), "absolute": ev(ab), "written": written}
+        return mlang.guarded(f)
+
+    def spec(self, case, r):
+        from harness import score_gen as sg
+        if mlang.is_exc(r):
+            if "IndexError" in str(r):
+                return None
+            return {"sig": "relative-render-raises", "msg": str(r)}
+        want = {nm: [[p, o, d] for p, o, d, v in l] for nm, l in sg.spec_sounding(case["score"]).items()}
+        for nm, evs in want.items():
+            if nm.startswith("drums"):
+                continue
+            if r["rendered"].get(nm, []) != evs:
+                return {"sig": "relative-reference:rendering", "msg": f"part {nm}: {r['rendered'].get(nm, [])[:6]} expected {evs[:6]}"}
+            if r["absolute"].get(nm, []) != evs:
+                return {"sig": "relative-reference:to_absolute_note", "msg": f"part {nm}: {r['absolute'].get(nm, [])[:6]} expected {evs[:6]}"}
+            w = r["written"].get(nm, [])
+            if any(t != "a" for t, _ in w) or [p for _, p in w] != [e[0] for e in evs]:
+                return {"sig": "relative-reference:written-absolute-notes", "msg": f"part {nm}: {w[:6]} expected {[e[0] for e in evs][:6]}"}
+        return None
+
+    def nontrivial(self, case, r):
+        return any(n.get("dir") for c in case["score"] for _, notes in c["parts"] for n in notes)
+
+    def shrink(self, case):
+        from harness import score_gen as sg
+        from harness.props.C11 import fix_relative
+        for s2 in sg.shrink_score(case["score"]):
+            yield {"score": fix_relative(s2)}
+
+
 def streams():
-    return [Relative(), RawSystem()]
+    return [Relative(), RawSystem(), ReferenceSurvives()]
